@@ -18,7 +18,8 @@ From Koala Require Import Gen.TilingGen Model.Lattice Model.Tiling Model.Example
      Proofs.TilingFacts Proofs.TilingCount Proofs.ExamplesFacts Proofs.ExamplesIndex
      Proofs.ExamplesCensus Proofs.ExamplesClaims
      Proofs.LatticeFacts Proofs.WindingConvex Proofs.PeriodicRot Proofs.PeriodicFaces Proofs.PeriodicTile
-     Proofs.PeriodicExamples Proofs.PeriodicBlock Proofs.PeriodicGenerators Proofs.TileDegree.
+     Proofs.PeriodicExamples Proofs.PeriodicBlock Proofs.PeriodicGenerators Proofs.TileDegree
+     Gen.FixturesGen Proofs.FixturesFacts Proofs.PeriodicClosed.
 Import ListNotations.
 Open Scope Z_scope.
 
@@ -441,3 +442,49 @@ Theorem C10_make_honeycomb_flux_all_sizes :
              forall p, In p ps -> flux_of (make_honeycomb_ujk n) p = 1.
 Proof. exact make_honeycomb_flux_all_sizes_claim. Qed.
 Print Assumptions C10_make_honeycomb_flux_all_sizes.
+
+(* ===== the fixed fixture graphs (two_triangles, tri_square_pent, tutte_graph, multi_graph, bridge_graph,
+   concave_plaquette, star_lattice_sheared), as TRANSLATED from the literals of example_graphs.py on every run
+   (translate/fixtures.py -> Gen/FixturesGen.v; K compares them with the implementation's lattices exactly), are the
+   graphs they are named after. *)
+Theorem C10_fixtures_named :
+  open_census (fx_L fixture_two_triangles) [(3%nat, 2%nat)] = true /\
+  open_census (fx_L fixture_tri_square_pent) [(3%nat, 1%nat); (4%nat, 1%nat); (5%nat, 1%nat)] = true /\
+  (zlen (z_edges (fx_lat fixture_tutte_graph)) = 69 /\ regular_b fixture_tutte_graph 46 3 = true /\
+   forallb (fun c => (fst c =? 0) && (snd c =? 0)) (z_crossing (fx_lat fixture_tutte_graph)) = true /\
+   fx_pos_from_impl fixture_tutte_graph = true) /\
+  (z_edges (fx_lat fixture_multi_graph) = [(0, 1); (0, 0); (0, 1); (1, 1)] /\
+   no_self_loops (fx_L fixture_multi_graph) = false) /\
+  (open_census (fx_L fixture_bridge_graph) [(3%nat, 2%nat)] = true /\
+   option_map (fun ps => nth 3 (edges_plaquettes (fx_L fixture_bridge_graph) ps) (Some 0%nat, Some 0%nat))
+              (find_all_plaquettes (fx_L fixture_bridge_graph)) = Some (None, None)) /\
+  open_census (fx_L fixture_concave_plaquette) [(4%nat, 1%nat)] = true /\
+  (regular_b fixture_star_lattice_sheared 6 3 = true /\
+   proper_coloring 6 (z_edges (fx_lat fixture_star_lattice_sheared)) (fx_col fixture_star_lattice_sheared) = true /\
+   length (fx_ujk fixture_star_lattice_sheared) = 9%nat).
+Proof. exact fixtures_named_claim. Qed.
+Print Assumptions C10_fixtures_named.
+
+(* ===== polygons_all_sizes in the form of C10_polygons_bounded WITHOUT the upper bounds: for every size >= 2 the
+   four named tilings are closed tilings of the unit torus by exactly the advertised polygons (census, total, twice
+   the areas = 2*scale^2, every row of the edges_plaquettes table [Some _, Some _], V - E + F = 0).  The degree
+   clause of tiling_claim is proved for all sizes in C10_*_index_structure / C10_tri_non_degree /
+   C10_tile_degree_all_sizes (as zdegree of the integer edge list). *)
+Theorem C10_polygons_all_sizes :
+  (forall n, 2 <= n ->
+     closed_tiling_prop (to_lattice (honeycomb n)) [(6%nat, Z.to_nat (2 * n * honeycomb_nv n))]) /\
+  (forall n, 2 <= n ->
+     closed_tiling_prop (to_lattice (hex_square_oct n))
+                        [(4%nat, Z.to_nat (n * n)); (6%nat, Z.to_nat (n * n)); (8%nat, Z.to_nat (n * n))]) /\
+  (forall nx ny, 2 <= nx -> 2 <= ny ->
+     closed_tiling_prop (to_lattice (tri_non nx ny)) [(3%nat, Z.to_nat (nx * ny)); (9%nat, Z.to_nat (nx * ny))]) /\
+  (forall nx ny, 2 <= nx -> 2 <= ny ->
+     closed_tiling_prop (to_lattice (square nx ny)) [(4%nat, Z.to_nat (nx * ny))]).
+Proof. exact polygons_all_sizes_claim. Qed.
+Print Assumptions C10_polygons_all_sizes.
+
+(* closed_tiling_prop is the proposition the boolean closed_tiling (run by S on the implementation) decides *)
+Theorem C10_closed_tiling_prop_meaning :
+  forall L census, closed_tiling L census = true -> closed_tiling_prop L census.
+Proof. exact closed_tiling_spec. Qed.
+Print Assumptions C10_closed_tiling_prop_meaning.
